@@ -2,8 +2,20 @@ package vrt
 
 import (
 	"fmt"
+	"sync"
 	"unsafe"
 )
+
+// ---------------------------------------------------------------------------
+// Cooperative scheduler for the schedule explorer E3.
+//
+// Instrumented code calls R/W before every hooked shared-memory access and the
+// vsync/vatomic shims before every synchronisation operation. While an
+// exploration is active exactly one "thread" (a goroutine started by Run) runs at
+// a time; at every visible operation of a HOT site the thread parks and the
+// scheduler decides who moves next. Outside an exploration every hook is a
+// pass-through.
+// ---------------------------------------------------------------------------
 
 type OpKind int
 
@@ -15,10 +27,11 @@ const (
 	OpUnlock
 	OpRLock
 	OpRUnlock
+	OpAtomic
 )
 
 func (k OpKind) String() string {
-	return [...]string{"start", "R", "W", "lock", "unlock", "rlock", "runlock"}[k]
+	return [...]string{"start", "R", "W", "lock", "unlock", "rlock", "runlock", "atomic"}[k]
 }
 
 type Op struct {
@@ -26,6 +39,7 @@ type Op struct {
 	Addr uintptr
 	Site string
 	Mu   *Mutex
+	RW   *RWMutex
 }
 
 type thread struct {
@@ -36,29 +50,10 @@ type thread struct {
 	panicv  any
 }
 
-type Sched struct {
-	threads []*thread
-	cur     *thread
-	yield   chan struct{} // running thread -> scheduler
-	// DFS
-	prefix  []int
-	Choices []int
-	Points  []Point
-	Trace   []string
-	Races   []string
-	Dead    bool
-	log     map[uintptr][]access
-}
-
 type Point struct {
-	Enabled        []int // thread ids in canonical order
+	Enabled        []int // thread ids in canonical order: the running thread first if still enabled, then ascending ids
 	RunningEnabled bool
 }
-
-var S *Sched // active scheduler (nil = pass-through)
-
-// Hot = sites that are scheduling points. Other hooked accesses are only logged.
-var Hot = map[string]bool{}
 
 type access struct {
 	tid   int
@@ -66,10 +61,48 @@ type access struct {
 	site  string
 }
 
-// Promote scans the access log of one execution: every address touched by >=2 threads with >=1 write
-// makes all its sites hot. Returns the number of newly promoted sites.
-func (s *Sched) Promote() int {
-	n := 0
+type Race struct {
+	Desc string
+	Addr uintptr
+}
+
+type Sched struct {
+	threads []*thread
+	cur     *thread
+	yield   chan struct{}
+	prefix  []int
+	Choices []int
+	Points  []Point
+	Trace   []string
+	Races   []Race
+	Dead    bool
+	Panics  []string
+	log     map[uintptr][]access
+	Ops     int // visible operations executed (scheduling points passed)
+	Logged  int // hooked accesses seen (hot or not)
+}
+
+var S *Sched // active scheduler (nil = pass-through)
+
+// Hot = sites that are scheduling points. Other hooked accesses are only logged.
+var Hot = map[string]bool{}
+
+// AllHot makes every hooked access a scheduling point (used for small scenarios).
+var AllHot bool
+
+func cur() *thread {
+	if S == nil {
+		return nil
+	}
+	return S.cur
+}
+
+// Candidates scans the access log of one execution: every address touched by >=2
+// threads with >=1 write makes all its sites candidates for the hot set. The hot set
+// itself must only change BETWEEN exploration rounds (a change in mid-round would
+// make recorded schedule prefixes diverge).
+func (s *Sched) Candidates() []string {
+	var out []string
 	for _, accs := range s.log {
 		tids := map[int]bool{}
 		w := false
@@ -80,57 +113,143 @@ func (s *Sched) Promote() int {
 		if len(tids) >= 2 && w {
 			for _, a := range accs {
 				if !Hot[a.site] {
-					Hot[a.site] = true
-					n++
+					out = append(out, a.site)
 				}
 			}
 		}
 	}
-	return n
+	return out
 }
 
 // ---- hooks called by instrumented code ----
 
 func R[T any](p *T, site string) *T {
-	if S != nil && S.cur != nil {
+	if t := cur(); t != nil {
 		a := uintptr(unsafe.Pointer(p))
-		S.log[a] = append(S.log[a], access{S.cur.id, false, site})
-		if Hot[site] {
+		S.Logged++
+		S.log[a] = append(S.log[a], access{t.id, false, site})
+		if AllHot || Hot[site] {
 			S.park(Op{Kind: OpRead, Addr: a, Site: site})
 		}
 	}
 	return p
 }
+
 func W[T any](p *T, site string) *T {
-	if S != nil && S.cur != nil {
+	if t := cur(); t != nil {
 		a := uintptr(unsafe.Pointer(p))
-		S.log[a] = append(S.log[a], access{S.cur.id, true, site})
-		if Hot[site] {
+		S.Logged++
+		S.log[a] = append(S.log[a], access{t.id, true, site})
+		if AllHot || Hot[site] {
 			S.park(Op{Kind: OpWrite, Addr: a, Site: site})
 		}
 	}
 	return p
 }
 
-// ---- sync shim ----
+// AtomicPoint is a scheduling point for an atomic operation (never a race candidate).
+func AtomicPoint(p unsafe.Pointer, site string) {
+	if t := cur(); t != nil {
+		S.park(Op{Kind: OpAtomic, Addr: uintptr(p), Site: site})
+	}
+}
+
+// ---- synchronisation shims (aliased by verifmc/vsync) ----
+
 type Mutex struct {
+	real   sync.Mutex
 	holder *thread
-	locked bool // pass-through mode flag
 }
 
 func (m *Mutex) Lock() {
-	if S != nil && S.cur != nil {
-		S.park(Op{Kind: OpLock, Mu: m})
+	if cur() != nil {
+		S.park(Op{Kind: OpLock, Mu: m, Site: "Mutex.Lock"})
 		return
 	}
-	m.locked = true
+	m.real.Lock()
 }
+
 func (m *Mutex) Unlock() {
-	if S != nil && S.cur != nil {
-		S.park(Op{Kind: OpUnlock, Mu: m})
+	if cur() != nil {
+		S.park(Op{Kind: OpUnlock, Mu: m, Site: "Mutex.Unlock"})
 		return
 	}
-	m.locked = false
+	m.real.Unlock()
+}
+
+func (m *Mutex) TryLock() bool {
+	if t := cur(); t != nil {
+		S.park(Op{Kind: OpAtomic, Site: "Mutex.TryLock"})
+		if m.holder == nil {
+			m.holder = t
+			return true
+		}
+		return false
+	}
+	return m.real.TryLock()
+}
+
+type RWMutex struct {
+	real    sync.RWMutex
+	writer  *thread
+	readers int
+}
+
+func (m *RWMutex) Lock() {
+	if cur() != nil {
+		S.park(Op{Kind: OpLock, RW: m, Site: "RWMutex.Lock"})
+		return
+	}
+	m.real.Lock()
+}
+func (m *RWMutex) Unlock() {
+	if cur() != nil {
+		S.park(Op{Kind: OpUnlock, RW: m, Site: "RWMutex.Unlock"})
+		return
+	}
+	m.real.Unlock()
+}
+func (m *RWMutex) RLock() {
+	if cur() != nil {
+		S.park(Op{Kind: OpRLock, RW: m, Site: "RWMutex.RLock"})
+		return
+	}
+	m.real.RLock()
+}
+func (m *RWMutex) RUnlock() {
+	if cur() != nil {
+		S.park(Op{Kind: OpRUnlock, RW: m, Site: "RWMutex.RUnlock"})
+		return
+	}
+	m.real.RUnlock()
+}
+func (m *RWMutex) RLocker() sync.Locker { return (*rlocker)(m) }
+
+type rlocker RWMutex
+
+func (r *rlocker) Lock()   { (*RWMutex)(r).RLock() }
+func (r *rlocker) Unlock() { (*RWMutex)(r).RUnlock() }
+
+// Once: the done flag is an atomic, the slow path takes the mutex.
+type Once struct {
+	m    Mutex
+	done bool
+}
+
+func (o *Once) Do(f func()) {
+	AtomicPoint(unsafe.Pointer(o), "Once.Do(load)")
+	if o.done {
+		return
+	}
+	o.m.Lock()
+	defer o.m.Unlock()
+	if !o.done {
+		defer func() {
+			AtomicPoint(unsafe.Pointer(o), "Once.Do(store)")
+			o.done = true
+		}()
+		f()
+	}
 }
 
 // ---- scheduler ----
@@ -146,8 +265,15 @@ func (s *Sched) enabled(t *thread) bool {
 	if t.done {
 		return false
 	}
-	if t.pending.Kind == OpLock && t.pending.Mu.holder != nil {
-		return false
+	p := t.pending
+	switch p.Kind {
+	case OpLock:
+		if p.Mu != nil {
+			return p.Mu.holder == nil
+		}
+		return p.RW.writer == nil && p.RW.readers == 0
+	case OpRLock:
+		return p.RW.writer == nil
 	}
 	return true
 }
@@ -165,6 +291,7 @@ func Run(prefix []int, bodies []func()) *Sched {
 			defer func() {
 				if r := recover(); r != nil {
 					t.panicv = r
+					s.Panics = append(s.Panics, fmt.Sprintf("T%d: %v", t.id, r))
 				}
 				t.done = true
 				s.yield <- struct{}{}
@@ -174,7 +301,7 @@ func Run(prefix []int, bodies []func()) *Sched {
 	}
 	var last *thread
 	for {
-		// race check among pending plain accesses of live threads
+		// data race = two live threads whose pending (enabled) operations are conflicting plain accesses to one address
 		for i, a := range s.threads {
 			for _, b := range s.threads[i+1:] {
 				if a.done || b.done {
@@ -184,7 +311,7 @@ func Run(prefix []int, bodies []func()) *Sched {
 				plainA := pa.Kind == OpRead || pa.Kind == OpWrite
 				plainB := pb.Kind == OpRead || pb.Kind == OpWrite
 				if plainA && plainB && pa.Addr == pb.Addr && (pa.Kind == OpWrite || pb.Kind == OpWrite) {
-					s.Races = append(s.Races, fmt.Sprintf("T%d %s@%s || T%d %s@%s", a.id, pa.Kind, pa.Site, b.id, pb.Kind, pb.Site))
+					s.Races = append(s.Races, Race{Addr: pa.Addr, Desc: fmt.Sprintf("%s@%s || %s@%s", pa.Kind, pa.Site, pb.Kind, pb.Site)})
 				}
 			}
 		}
@@ -204,26 +331,46 @@ func Run(prefix []int, bodies []func()) *Sched {
 					s.Dead = true
 				}
 			}
+			if s.Dead {
+				// release the blocked goroutines so that they do not leak: they stay parked forever otherwise
+				// (they are abandoned; each holds only its own stack)
+			}
 			return s
 		}
 		c := 0
 		if len(s.Choices) < len(s.prefix) {
 			c = s.prefix[len(s.Choices)]
 			if c >= len(en) {
-				panic("replay divergence")
+				panic(fmt.Sprintf("replay divergence at point %d: choice %d of %d enabled", len(s.Choices), c, len(en)))
 			}
 		}
 		s.Points = append(s.Points, Point{Enabled: en, RunningEnabled: runEn})
 		s.Choices = append(s.Choices, c)
 		t := s.threads[en[c]]
-		// apply sync effect
-		switch t.pending.Kind {
+		// apply the synchronisation effect of the granted operation
+		p := t.pending
+		switch p.Kind {
 		case OpLock:
-			t.pending.Mu.holder = t
+			if p.Mu != nil {
+				p.Mu.holder = t
+			} else {
+				p.RW.writer = t
+			}
 		case OpUnlock:
-			t.pending.Mu.holder = nil
+			if p.Mu != nil {
+				p.Mu.holder = nil
+			} else {
+				p.RW.writer = nil
+			}
+		case OpRLock:
+			p.RW.readers++
+		case OpRUnlock:
+			p.RW.readers--
 		}
-		s.Trace = append(s.Trace, fmt.Sprintf("T%d:%s@%s", t.id, t.pending.Kind, t.pending.Site))
+		if p.Kind != OpStart {
+			s.Ops++
+		}
+		s.Trace = append(s.Trace, fmt.Sprintf("T%d:%s@%s", t.id, p.Kind, p.Site))
 		s.cur = t
 		last = t
 		t.wake <- struct{}{}
@@ -232,14 +379,18 @@ func Run(prefix []int, bodies []func()) *Sched {
 	}
 }
 
-// Explore does preemption-bounded DFS; visit is called per execution.
-func Explore(bound int, bodies func() []func(), visit func(s *Sched)) (execs int) {
+// Explore does preemption-bounded depth-first search (bound < 0: unbounded); visit is
+// called once per execution. limit > 0 caps the number of executions (returns capped=true).
+func Explore(bound int, limit int, bodies func() []func(), visit func(s *Sched)) (execs int, capped bool) {
 	var rec func(prefix []int)
 	rec = func(prefix []int) {
+		if limit > 0 && execs >= limit {
+			capped = true
+			return
+		}
 		s := Run(prefix, bodies())
 		execs++
 		visit(s)
-		// preemptions before i
 		pre := 0
 		costs := make([]int, len(s.Points))
 		for i, p := range s.Points {
@@ -252,18 +403,16 @@ func Explore(bound int, bodies func() []func(), visit func(s *Sched)) (execs int
 			p := s.Points[i]
 			cost := costs[i]
 			if p.RunningEnabled {
-				cost++
+				cost++ // switching away from a runnable thread is a preemption
 			}
 			if bound >= 0 && cost > bound {
 				continue
 			}
 			for alt := 1; alt < len(p.Enabled); alt++ {
-				np := append(append([]int{}, s.Choices[:i]...), alt)
-				rec(np)
+				rec(append(append([]int{}, s.Choices[:i]...), alt))
 			}
 		}
 	}
 	rec(nil)
 	return
 }
-
